@@ -339,7 +339,8 @@ theorem Request.decode_inv {b : Bytes} {v : Request} (h : Request.decode b = .ok
 
 /-! ### inversion of the response decoder -/
 
-/-- what a successfully decoded response looks like -/
+/-- what a successfully decoded response looks like (`bc` is the byte-count field on the wire; a register
+    response keeps the `bc / 2` whole registers, i.e. exactly `bc / 2 * 2` bytes) -/
 inductive Response.Decoded : Response → Prop
   | readCoils (bc : UInt8) (data : Bytes) : data.length = bc.toNat →
       Response.Decoded (.readCoils ⟨data, bc.toNat * 8⟩)
@@ -349,11 +350,11 @@ inductive Response.Decoded : Response → Prop
   | writeMultipleCoils (a q : UInt16) : Response.Decoded (.writeMultipleCoils a q)
   | writeSingleRegister (a w : UInt16) : Response.Decoded (.writeSingleRegister a w)
   | writeMultipleRegisters (a q : UInt16) : Response.Decoded (.writeMultipleRegisters a q)
-  | readInputRegisters (bc : UInt8) (data : Bytes) : data.length = bc.toNat →
+  | readInputRegisters (bc : UInt8) (data : Bytes) : data.length = bc.toNat / 2 * 2 →
       Response.Decoded (.readInputRegisters ⟨data, bc.toNat / 2⟩)
-  | readHoldingRegisters (bc : UInt8) (data : Bytes) : data.length = bc.toNat →
+  | readHoldingRegisters (bc : UInt8) (data : Bytes) : data.length = bc.toNat / 2 * 2 →
       Response.Decoded (.readHoldingRegisters ⟨data, bc.toNat / 2⟩)
-  | readWriteMultipleRegisters (bc : UInt8) (data : Bytes) : data.length = bc.toNat →
+  | readWriteMultipleRegisters (bc : UInt8) (data : Bytes) : data.length = bc.toNat / 2 * 2 →
       Response.Decoded (.readWriteMultipleRegisters ⟨data, bc.toNat / 2⟩)
   | custom (fc : UInt8) (d : Bytes) : (FunctionCode.new fc).isOther = true →
       Response.Decoded (.custom (FunctionCode.new fc) d)
@@ -386,7 +387,7 @@ theorem Response.decode_inv {b : Bytes} {v : Response} (h : Response.decode b = 
     by_cases hb : b[1].toNat + 2 > b.length
     · rw [if_pos hb] at h; cases h
     rw [if_neg hb] at h
-    have hs : 2 ≤ 2 + b[1].toNat ∧ 2 + b[1].toNat ≤ b.length := by omega
+    have hs : 2 ≤ 2 + b[1].toNat / 2 * 2 ∧ 2 + b[1].toNat / 2 * 2 ≤ b.length := by omega
     simp only [slice, if_pos hs, Res.bind'_ok, Res.ok.injEq] at h
     subst h
     constructor
@@ -475,15 +476,20 @@ theorem Response.decode_coils_bytes (bc : UInt8) (data : Bytes) (h : bc.toNat = 
   constructor <;> simp [Response.decode, idx, h1, h2, minResponsePduLen, slice] <;>
     rw [if_neg (by omega), if_neg (by omega), if_pos (by omega), h, List.take_length] <;> rfl
 
-theorem Response.decode_regs_bytes (bc : UInt8) (data : Bytes) (h : bc.toNat = data.length) :
-    Response.decode (0x03 :: bc :: data) = .ok (.readHoldingRegisters ⟨data, bc.toNat / 2⟩) ∧
-    Response.decode (0x04 :: bc :: data) = .ok (.readInputRegisters ⟨data, bc.toNat / 2⟩) ∧
-    Response.decode (0x17 :: bc :: data) = .ok (.readWriteMultipleRegisters ⟨data, bc.toNat / 2⟩) := by
+/-- a register response on explicit bytes: the `bc / 2` whole registers are kept, a dangling odd byte (and
+    anything after the `bc` counted bytes) is not part of the decoded value -/
+theorem Response.decode_regs_bytes (bc : UInt8) (data : Bytes) (h : bc.toNat ≤ data.length) :
+    Response.decode (0x03 :: bc :: data) =
+      .ok (.readHoldingRegisters ⟨data.take (bc.toNat / 2 * 2), bc.toNat / 2⟩) ∧
+    Response.decode (0x04 :: bc :: data) =
+      .ok (.readInputRegisters ⟨data.take (bc.toNat / 2 * 2), bc.toNat / 2⟩) ∧
+    Response.decode (0x17 :: bc :: data) =
+      .ok (.readWriteMultipleRegisters ⟨data.take (bc.toNat / 2 * 2), bc.toNat / 2⟩) := by
   have h3 : FunctionCode.new 0x03 = .readHoldingRegisters := by decide
   have h4 : FunctionCode.new 0x04 = .readInputRegisters := by decide
   have h17 : FunctionCode.new 0x17 = .readWriteMultipleRegisters := by decide
   refine ⟨?_, ?_, ?_⟩ <;> simp [Response.decode, idx, h3, h4, h17, minResponsePduLen, slice] <;>
-    rw [if_neg (by omega), if_neg (by omega), if_pos (by omega), h, List.take_length] <;> rfl
+    rw [if_neg (by omega), if_neg (by omega), if_pos (by omega)] <;> rfl
 
 theorem Response.decode_fixed_image :
     (∀ a, Response.decode (Response.writeSingleCoil a).image = .ok (.writeSingleCoil a)) ∧
@@ -562,10 +568,10 @@ theorem Response.redecode_regs (d : Data) (h1 : d.quantity * 2 ≤ 255) (h2 : d.
       .ok (.readInputRegisters ⟨d.data.take (d.quantity * 2), d.quantity⟩) ∧
     Response.decode (Response.readWriteMultipleRegisters d).image =
       .ok (.readWriteMultipleRegisters ⟨d.data.take (d.quantity * 2), d.quantity⟩) := by
-  have hl : (UInt8.ofNat (d.quantity * 2)).toNat = (d.data.take (d.quantity * 2)).length := by
+  have hl : (UInt8.ofNat (d.quantity * 2)).toNat ≤ (d.data.take (d.quantity * 2)).length := by
     rw [UInt8.toNat_ofNat_of_le h1, List.length_take]; omega
   have := Response.decode_regs_bytes (UInt8.ofNat (d.quantity * 2)) (d.data.take (d.quantity * 2)) hl
-  rw [UInt8.toNat_ofNat_of_le h1, Nat.mul_div_cancel _ (by omega : 0 < 2)] at this
+  rw [UInt8.toNat_ofNat_of_le h1, Nat.mul_div_cancel _ (by omega : 0 < 2), List.take_take, Nat.min_self] at this
   exact this
 
 
@@ -754,7 +760,7 @@ theorem Response.Decoded.pduLen_ne_panic {v : Response} (hd : Response.Decoded v
   cases hd <;> simp [Response.pduLen]
 
 /-- decoding the wire image of a decoded response succeeds and gives a value with the same meaning
-    (a trailing odd byte of a register response is dropped by the encoder) -/
+    (a decoded register response holds whole registers only, so nothing is dropped) -/
 theorem Response.Decoded.redecode {v : Response} (hd : Response.Decoded v) :
     ∃ v', Response.decode v.image = .ok v' ∧ v'.sem = v.sem := by
   have he := hd.encodable
@@ -796,6 +802,62 @@ theorem Response.Decoded.redecode {v : Response} (hd : Response.Decoded v) :
   | writeMultipleRegisters a q => exact ⟨_, Response.decode_fixed_image.2.2.2 a q, rfl⟩
   | custom fc d ho =>
     refine ⟨_, ?_, rfl⟩
+    show Response.decode ((FunctionCode.new fc).value :: d) = _
+    rw [FunctionCode.value_new]
+    exact Response.decode_custom_bytes fc d ho
+
+/-- a decoded register response holds exactly `2 · quantity` bytes, at most 254 -/
+theorem Response.Decoded.dataExact {v : Response} (hd : Response.Decoded v) :
+    match v with
+    | .readInputRegisters d | .readHoldingRegisters d | .readWriteMultipleRegisters d =>
+        d.data.length = d.quantity * 2 ∧ d.quantity * 2 ≤ 255
+    | _ => True := by
+  cases hd with
+  | readInputRegisters bc data h | readHoldingRegisters bc data h | readWriteMultipleRegisters bc data h =>
+    have := bc.toNat_lt
+    exact ⟨h, by show bc.toNat / 2 * 2 ≤ 255; omega⟩
+  | _ => trivial
+
+/-- **decoding is idempotent on the nose for responses**: the wire image of a decoded response decodes to
+    the very same value (register payloads hold whole registers only, coil payloads whole bytes) -/
+theorem Response.Decoded.redecode_exact {v : Response} (hd : Response.Decoded v) :
+    Response.decode v.image = .ok v := by
+  have he := hd.encodable
+  cases hd with
+  | readCoils bc data h =>
+    obtain ⟨h1, h2⟩ := he
+    have hq : (Coils.mk data (bc.toNat * 8)).packedLen = bc.toNat := by
+      show packedCoilsLen (bc.toNat * 8) = _; unfold packedCoilsLen; omega
+    have := (Response.redecode_coils _ h1 h2).1
+    rw [hq, List.take_of_length_le (by show data.length ≤ _; omega)] at this
+    exact this
+  | readDiscreteInputs bc data h =>
+    obtain ⟨h1, h2⟩ := he
+    have hq : (Coils.mk data (bc.toNat * 8)).packedLen = bc.toNat := by
+      show packedCoilsLen (bc.toNat * 8) = _; unfold packedCoilsLen; omega
+    have := (Response.redecode_coils _ h1 h2).2
+    rw [hq, List.take_of_length_le (by show data.length ≤ _; omega)] at this
+    exact this
+  | readHoldingRegisters bc data h =>
+    obtain ⟨h1, h2⟩ := he
+    have := (Response.redecode_regs _ h1 h2).1
+    rw [List.take_of_length_le (by show data.length ≤ bc.toNat / 2 * 2; omega)] at this
+    exact this
+  | readInputRegisters bc data h =>
+    obtain ⟨h1, h2⟩ := he
+    have := (Response.redecode_regs _ h1 h2).2.1
+    rw [List.take_of_length_le (by show data.length ≤ bc.toNat / 2 * 2; omega)] at this
+    exact this
+  | readWriteMultipleRegisters bc data h =>
+    obtain ⟨h1, h2⟩ := he
+    have := (Response.redecode_regs _ h1 h2).2.2
+    rw [List.take_of_length_le (by show data.length ≤ bc.toNat / 2 * 2; omega)] at this
+    exact this
+  | writeSingleCoil a => exact Response.decode_fixed_image.1 a
+  | writeMultipleCoils a q => exact Response.decode_fixed_image.2.1 a q
+  | writeSingleRegister a q => exact Response.decode_fixed_image.2.2.1 a q
+  | writeMultipleRegisters a q => exact Response.decode_fixed_image.2.2.2 a q
+  | custom fc d ho =>
     show Response.decode ((FunctionCode.new fc).value :: d) = _
     rw [FunctionCode.value_new]
     exact Response.decode_custom_bytes fc d ho
